@@ -72,12 +72,12 @@ class Sim:
         return HASHSEEDS[i], HASHSEEDS[j]
 
     # ------------------------------------------------------------------ jobs
-    def execute(self, hs: int, programs: dict, ops: list, idhash_seed, timeout=120) -> dict:
+    def execute(self, hs: int, programs: dict, ops: list, idhash_seed, timeout=60) -> dict:
         return self.pool.call(
             hs, {"kind": "run", "programs": programs, "ops": ops, "idhash_seed": idhash_seed, "timeout": timeout}
         )
 
-    def reference(self, hs: int, spec: dict, ob: dict, timeout=120) -> list:
+    def reference(self, hs: int, spec: dict, ob: dict, timeout=60) -> list:
         job = {
             "kind": "ref",
             "spec": spec,
